@@ -205,11 +205,13 @@ class TokenStore(Generic[_T]):
         start_i, start_j = start
         end_i, end_j = end
 
+        seen = set[int]()
         for token in tokens:
-            if token.store_handle is not None and (
+            if id(token) in seen or token.store_handle is not None and (
                     token.store_handle.block.store is not self or
                     not start <= (token.store_handle.block.index, token.store_handle.index) < end):
                 raise ValueError('Token already in a store.')
+            seen.add(id(token))
 
         if start_i == end_i:
             len_removed = end_j - start_j
